@@ -65,3 +65,11 @@ def run(ctx):
     FT.f2_initial_shifts(ctx)
     FT.f3_gap_size(ctx)
     ctx.floor("F2", 4)
+    # what is extracted is what the table method calls stable: it keeps its books after every change of a value (round 10)
+    for fn11 in (FT.f5_firing_test, FT.f6_increase_corrections, FT.f7_infinite_corrections, FT.f8_gap):
+        fn11(ctx)
+    ctx.floor("F6", 4)
+    ctx.floor("F7", 3)
+    from ..engines import varkind as V16E
+    V16E.v16_injectivity_is_about_values(ctx)
+    ctx.floor("V16", 1)
